@@ -340,7 +340,7 @@ func runCheck(e *Engine, prop string, cfg PropConfig, known []KnownFinding, seed
 					reproduced = oc.Race != ""
 				}
 				if !reproduced {
-					inconclusive = append(inconclusive, fmt.Sprintf("%s: counterexample for %s (%s) did NOT reproduce natively (failed=%v panic=%q assumeViolated=%v notes=%v) — engine/model defect, not reported as violation", h.Name, v.Label, v.Site, oc.Failed, oc.Panic, oc.AssumeViolated, v.Notes))
+					inconclusive = append(inconclusive, fmt.Sprintf("%s: counterexample for %s (%s) did NOT reproduce natively (failed=%v panic=%q assumeViolated=%v notes=%v values=%v) — engine/model defect, not reported as violation", h.Name, v.Label, v.Site, oc.Failed, oc.Panic, oc.AssumeViolated, v.Notes, v.Values))
 				}
 			}
 			if !reproduced {
